@@ -3,8 +3,8 @@
    recognises as up to date": proved for every path of the model, which follows the repaired code
    (`fix: restore the source mtime ...`; before it the block-delta paths were a refuted case, C03-KF1). *)
 From Coq Require Import NArith ZArith List Bool Lia.
-From SyModel Require Import Engine.
-From SyProofs Require Import Engine_proofs.
+From SyModel Require Import Engine Links.
+From SyProofs Require Import Engine_proofs Links_proofs.
 Import ListNotations.
 
 Lemma mtime_matches_refl t : mtime_matches t t = true.
@@ -82,3 +82,14 @@ Example C03_big_update_then_skip :
   let dst : fs := fun p => if peqb p [1%N] then Some (File 8 150 500%Z) else None in
   t_action (plan_entry c (fun _ => (0%N, 0%Z)) (r_fs (run (fun _ _ _ => false) (fun _ => (0%N, 0%Z)) c 9000%Z [[1%N]] [] [e] dst)) e) = ASkip.
 Proof. vm_compute. reflexivity. Qed.
+
+(* ---------- symbolic-link entries (Model/Links.v): "entry kinds (files, directories, symlinks ...)" ---------- *)
+(* re-running over what a run left reports neither a creation nor an update for the entry and leaves the destination entry as it
+   is, in every link mode, whatever was at the path before and whatever the link resolves to (an entry that cannot be handled --
+   a directory in the way -- is an error again).  On the pinned commit follow mode copied the link's referent again on every run
+   and skip mode reported the entry as created every time (`fix: follow mode does not copy an up-to-date entry again`,
+   `fix: a symlink entry that is not copied is reported as skipped ...`, recorded as fixed in known_findings.json). *)
+Theorem C03_link_rerun_is_quiet : forall m s d, let d1 := sync_link m s d in
+  sync_link m s d1 = d1 /\ (link_event m s d1 = EvSkip \/ link_event m s d1 = EvError).
+Proof. exact link_rerun_is_quiet. Qed.
+Print Assumptions C03_link_rerun_is_quiet.
